@@ -3,7 +3,7 @@
    `space`/`digit` = isspace/isdigit of the C locale; head_nondigit l = l is empty or starts with a non-digit;
    after l = the state a reader leaves when it stopped in front of l (eof when l is empty, good otherwise). *)
 From Coq Require Import ZArith List.
-From C19 Require Import Model ProofsBase ProofsInt ProofsRat ProofsElt ProofsRefute.
+From C19 Require Import Model ProofsBase ProofsInt ProofsRat ProofsElt ProofsHex ProofsRefute.
 Local Open Scope Z_scope.
 
 (* Integer: for every z, after any white space, followed by any text not starting with a digit:
@@ -41,6 +41,11 @@ Theorem C19_ruint_dec_roundtrip : Ruint_dec_roundtrip_stmt.             Proof. e
 Print Assumptions C19_ruint_dec_roundtrip.
 Theorem C19_rint_dec_roundtrip : Rint_dec_roundtrip_stmt.               Proof. exact rint_dec_roundtrip. Qed.
 Print Assumptions C19_rint_dec_roundtrip.
+(* RecInt hexadecimal display (std::hex on both streams); the following text must not start with a hex digit *)
+Theorem C19_ruint_hex_roundtrip : Ruint_hex_roundtrip_stmt.             Proof. exact ruint_hex_roundtrip. Qed.
+Print Assumptions C19_ruint_hex_roundtrip.
+Theorem C19_rint_hex_roundtrip : Rint_hex_roundtrip_stmt.               Proof. exact rint_hex_roundtrip. Qed.
+Print Assumptions C19_rint_hex_roundtrip.
 (* polynomials: the reader's own text format round-trips; what the writer prints does not (known finding) *)
 Theorem C19_poly_degree_format_roundtrip : Poly_degree_format_roundtrip_stmt. Proof. exact poly_degree_format_roundtrip. Qed.
 Print Assumptions C19_poly_degree_format_roundtrip.
